@@ -1,11 +1,11 @@
 #!/bin/bash
 # run confirm + quick check for every delivered seed that has no result yet (sequential)
 cd /verif
-LIST=$(ls -d /tmp/seed/C*/_out/[ab]); [ "$1" = rev ] && LIST=$(echo "$LIST" | tac)
+BASE=${SEED_BASE:-/tmp/seed}; RES=${SEED_RES:-.gen/seedres}; mkdir -p $RES; LIST=$(ls -d $BASE/C*/_out/[ab]); [ "$1" = rev ] && LIST=$(echo "$LIST" | tac)
 for d in $LIST; do
   [ -f "$d/patch.diff" ] && [ -f "$d/demo.py" ] || continue
-  id=$(echo "$d" | sed 's|/tmp/seed/\(C[0-9]*\)/_out/\([ab]\)|\1|'); v=$(basename "$d")
-  out=.gen/seedres/${id}_$v.txt
+  id=$(echo "$d" | sed "s|$BASE/\\(C[0-9]*\\)/_out/\\([ab]\\)|\\1|"); v=$(basename "$d")
+  out=$RES/${id}_$v.txt
   [ -f "$out" ] && continue
   echo "== $id $v" > "$out"
   tools/seedconfirm.sh "$d" >> "$out" 2>&1
